@@ -115,11 +115,13 @@ PLAN = {
     "C09": {
         "wtf": True,
         "quick": [
+            {"run": "TestC09_SteppedLimit", "checks": 40},
             {"run": "TestC09_Notebook", "checks": 12, "cores": 8},
             {"run": "TestC09_History", "checks": 12, "cores": 8},
             {"run": "TestC09_CrashPoints", "checks": 30, "cores": 8},
         ],
         "thorough": [
+            {"run": "TestC09_SteppedLimit", "checks": 1500, "shards": 4, "timeout": 7200},
             {"run": "TestC09_Notebook", "checks": 1000, "shards": 4, "cores": 4, "timeout": 7200},
             {"run": "TestC09_History", "checks": 500, "shards": 4, "cores": 4, "timeout": 7200},
             {"run": "TestC09_CrashPoints", "checks": 400, "shards": 4, "cores": 4, "timeout": 7200},
